@@ -169,6 +169,7 @@ pub fn run(mode: &str, seed: u64, n: usize, out: &mut dyn Write) {
             // whole image: decode / re-encode, behaviour of the reloaded dictionary
             "full" | "fullx" => {
                 let o = observe(&v);
+                let mut tokfnv: u64 = 0;
                 let beh = (|| -> Option<bool> {
                     // the original in-memory dictionary (as built and operated on) vs the reloaded one
                     let a = original?;
@@ -177,6 +178,7 @@ pub fn run(mode: &str, seed: u64, n: usize, out: &mut dyn Write) {
                     let sents: Vec<String> = (0..4).map(|_| gen_sentence(&mut srng, &d, &cfg, 6)).collect();
                     let ign = d.has_space && srng.chance(1, 2);
                     let (ta, a2) = tokens_of(a, &sents, ign)?;
+                    tokfnv = fnv64(ta.join("|").as_bytes());
                     // b goes through one more write/read before tokenizing
                     let mut buf = vec![];
                     let nb = b.write(&mut buf).ok()?;
@@ -194,7 +196,7 @@ pub fn run(mode: &str, seed: u64, n: usize, out: &mut dyn Write) {
                     Some(false) => "0",
                     None => "na",
                 };
-                writeln!(out, "image {id} {} IMPL {o} ## {flags} LEN={} MODE=full BEH={beh}", hex(&v), v.len()).unwrap();
+                writeln!(out, "image {id} {} IMPL {o} ## {flags} LEN={} MODE=full BEH={beh} IMGFNV={} TOKFNV={tokfnv}", hex(&v), v.len(), fnv64(&v)).unwrap();
             }
             // truncations
             "cuts" | "allcuts" => {
